@@ -28,7 +28,7 @@ func sizeMessageSet(mi *MessageInfo, p pointer, opts marshalOptions) (size int) 
 		size += messageset.SizeField(num)
 		if fullyLazyExtensions(opts) {
 			// Don't expand the extension, instead use the buffer to calculate size
-			if lb := x.lazyBuffer(); lb != nil {
+			if lb := x.lazyBuffer(); lb != nil && isSingleLazyRecord(lb, xi.tagsize) {
 				// We got hold of the buffer, so it's still lazy.
 				// Don't count the tag size in the extension buffer, it's already added.
 				size += protowire.SizeTag(messageset.FieldMessage) + len(lb) - xi.tagsize
@@ -97,7 +97,7 @@ func marshalMessageSetField(mi *MessageInfo, b []byte, x ExtensionField, opts ma
 
 	if fullyLazyExtensions(opts) {
 		// Don't expand the extension if it's still in wire format, instead use the buffer content.
-		if lb := x.lazyBuffer(); lb != nil {
+		if lb := x.lazyBuffer(); lb != nil && isSingleLazyRecord(lb, xi.tagsize) {
 			// The tag inside the lazy buffer is a different tag (the extension
 			// number), but what we need here is the tag for FieldMessage:
 			b = protowire.AppendVarint(b, protowire.EncodeTag(messageset.FieldMessage, protowire.BytesType))
@@ -113,6 +113,17 @@ func marshalMessageSetField(mi *MessageInfo, b []byte, x ExtensionField, opts ma
 	}
 	b = messageset.AppendFieldEnd(b)
 	return b, nil
+}
+
+// isSingleLazyRecord reports whether the lazy buffer of an extension holds
+// exactly one record. Repeated occurrences of an item are appended to the
+// buffer and have to be merged before they can be written as one item.
+func isSingleLazyRecord(lb []byte, tagsize int) bool {
+	if len(lb) < tagsize {
+		return false
+	}
+	_, n := protowire.ConsumeBytes(lb[tagsize:])
+	return n == len(lb)-tagsize
 }
 
 func unmarshalMessageSet(mi *MessageInfo, b []byte, p pointer, opts unmarshalOptions) (out unmarshalOutput, err error) {
